@@ -35,6 +35,14 @@ CHECKS.update({
                 text='Every decoder runs on symbolic bytes with bounds/lifetime-checked memory; the whole three-thread read '
                      'pipeline runs on a file with a symbolic object header and must terminate (deadlock and step-budget detection).',
                 note='bounded stream sizes; allocation classes; 4 string-heavy decoders excluded from the per-decoder harness (stated); real zlib outside'),
+    'C15': dict(cat='model_checking', ref='§C15',
+                text='Real UncompressedFile (with real libstdc++ list/shared_ptr/vector code) executed on bounded operation histories with '
+                     'symbolic data bytes and completely enumerated chunkings; every byte and observer compared with a flat byte-queue model.',
+                note='histories of length 3 quick / 4 thorough; containers 1..3 bytes; chunks <= 3 bytes; seek-back into dropped data outside'),
+    'C16': dict(cat='model_checking', ref='§C16',
+                text='Real ObjectQueue methods from an arbitrary (symbolic 32-bit) counter state against a reference model; blocking, eof, abort, '
+                     'no-lost-wake-up obligations decided by z3 with the real wait predicates evaluated in probe mode.',
+                note='sequences of 3 quick / 5 thorough operations; concurrency by monitor reduction (every method holds the mutex: C11)'),
     'C17': dict(cat='model_checking', ref='§C17',
                 text='File::createObject executed for a symbolic 32-bit code (one path per switch arm, z3 feasibility), compared with the '
                      'File.h class/code table; every class default-constructed in symbolic-garbage memory.',
